@@ -106,6 +106,9 @@ class IO(object):
         hostname = self.address[0]
         context = context or create_default_context()
         log.encrypt(self.socket, context)
+        # Anything received in clear text before the handshake must never be
+        # interpreted as if it had arrived over the encrypted channel.
+        self.recv_buffer = b''
         try:
             self.socket = context.wrap_socket(self.socket,
                                               server_hostname=hostname)
@@ -116,6 +119,9 @@ class IO(object):
 
     def encrypt_socket_server(self, context):
         log.encrypt(self.socket, context)
+        # Anything received in clear text before the handshake must never be
+        # interpreted as if it had arrived over the encrypted channel.
+        self.recv_buffer = b''
         try:
             self.socket = context.wrap_socket(self.socket, server_side=True)
             return True
